@@ -425,7 +425,9 @@ func evalCases(cases []Case, o *common.Options, rep *common.Report, probe bool) 
 		nontrivial := obs.HandleKind == "request" && total > 0 && len(obs.SOps)+len(obs.COps) > 0
 		rep.Case(sig(c), nontrivial)
 		rep.Count("handle=" + obs.HandleKind + obs.HandleErr)
-		rep.Count(fmt.Sprintf("cfg:key%d/ipsk%d/reqp%s/respp%s/seg%v", c.Cfg.KeyLen*8, c.Cfg.NIPSK, bucket(c.Cfg.ReqPrefix.Len), bucket(c.Cfg.RespPrefix.Len), c.Cfg.AllowSeg))
+		rep.Count(fmt.Sprintf("cfg:aes%d/ipsk%d", c.Cfg.KeyLen*8, c.Cfg.NIPSK))
+		rep.Count(fmt.Sprintf("cfg:reqprefix%s/respprefix%s", pbucket(c.Cfg.ReqPrefix.Len), pbucket(c.Cfg.RespPrefix.Len)))
+		rep.Count(fmt.Sprintf("cfg:allowseg=%v", c.Cfg.AllowSeg))
 		rep.Count("payload=" + bucket(c.Payload.Len))
 		rep.Count("c2s-seg=" + c.C2S.Mode)
 		rep.Count("s2c-seg=" + c.S2C.Mode)
@@ -464,6 +466,16 @@ func evalCases(cases []Case, o *common.Options, rep *common.Report, probe bool) 
 		}
 	}
 	return nil
+}
+
+func pbucket(n int) string {
+	switch {
+	case n == 0:
+		return "0"
+	case n <= 40:
+		return "short"
+	}
+	return "long"
 }
 
 func bucket(n int) string {
